@@ -1,8 +1,8 @@
 package main
 
 import (
-	"fmt"
 	"encoding/json"
+	"fmt"
 	"sort"
 
 	"github.com/modernizing/coca/pkg/application/concept"
